@@ -53,6 +53,10 @@ pub struct Case {
     /// which gated task completes next (choices mapped monotonically)
     #[serde(default)]
     pub verify_schedule: Option<Vec<u16>>,
+    /// modification times at verify: 0 = all equal, 1 = every source newer than the generated
+    /// files (a re-saved source, a fresh checkout), 2 = every source older
+    #[serde(default)]
+    pub source_mtimes: u8,
 }
 
 fn gen_case(c: &mut Choices) -> Case {
@@ -109,7 +113,8 @@ fn gen_case(c: &mut Choices) -> Case {
         _ => Change::SourceEdit { which: c.raw(), edit: c.below(6) as u8 },
     };
     let verify_schedule = if c.chance(1, 2) { Some((0..c.below(12)).map(|_| c.raw()).collect()) } else { None };
-    Case { project, build, verify_inputs, verify_recursive, change, verify_schedule }
+    let source_mtimes = c.weighted(&[2, 1, 1]) as u8;
+    Case { project, build, verify_inputs, verify_recursive, change, verify_schedule, source_mtimes }
 }
 
 pub fn tamper(b: &[u8], op: &Op, pos: u16) -> Option<Vec<u8>> {
@@ -300,6 +305,13 @@ pub fn check(case: &Case, st: &mut Stats) -> Check {
     }
     // verify, with sentinel mtimes so that a rewrite with identical bytes is visible
     fsx::stamp(&su.sc.root);
+    if case.source_mtimes != 0 {
+        let t = if case.source_mtimes == 1 { fsx::SENTINEL_SECS + 1000 } else { fsx::SENTINEL_SECS - 1000 };
+        for p in su.tree.keys() {
+            fsx::set_mtime(&su.sc.root.join(p), t);
+        }
+        st.class(if case.source_mtimes == 1 { "sources_newer_than_outputs" } else { "sources_older_than_outputs" });
+    }
     let snap_before = fsx::snapshot(&su.sc.root);
     let ver = match &case.verify_schedule {
         None => runner::run_free(&su.sc.root, &vopts),
@@ -380,7 +392,7 @@ impl Prop for C06 {
         PropMeta {
             id: "C06",
             level: "exploration",
-            rule: "cases = generated successful projects (dependencies, temp files, nested directories) built in-process, then one change: a single-point tampering of one output (flip / insert / delete a byte at first, middle or last position, append, truncate to 0..len-1, delete the file, extend with the fresh bytes as prefix, replace), the other trailing-newline setting for verify, or a source edit after the build; verify runs on the whole tree or on a subset of inputs. Oracle (differential, model-free): in the same root the on-disk generated files are saved, a build with verify's options and inputs is run and recorded, the saved files are restored; verify must succeed iff every output of the verified closure (first-pass tasks seen in the hook trace of that build) is byte-identical on disk, and must leave every output path untouched (bytes, inode, mtime pre-set to a sentinel; none created or deleted). Non-trivial = untampered control, or a change that makes >=1 output of the closure differ; distinct by hash of the case.",
+            rule: "cases = generated successful projects (dependencies, temp files, nested directories) built in-process, then one change: a single-point tampering of one output (flip / insert / delete a byte at first, middle or last position, append, truncate to 0..len-1, delete the file, extend with the fresh bytes as prefix, replace), the other trailing-newline setting for verify, or a source edit after the build; verify runs on the whole tree or on a subset of inputs, with file times all equal, sources newer than generated files, or older. Oracle (differential, model-free): in the same root the on-disk generated files are saved, a build with verify's options and inputs is run and recorded, the saved files are restored; verify must succeed iff every output of the verified closure (first-pass tasks seen in the hook trace of that build) is byte-identical on disk, and must leave every output path untouched (bytes, inode, mtime pre-set to a sentinel; none created or deleted). Non-trivial = untampered control, or a change that makes >=1 output of the closure differ; distinct by hash of the case.",
             assumptions: vec!["builds are deterministic for generated projects (commands from the closed vocabulary)"],
             hang_is_violation: false,
             needs_cli: false,
